@@ -36,7 +36,7 @@ impl GcEngine {
             "C02" => vec![GcOrders, GcOrders, Overwrite, Readd, Limit, Limit, ManyGroups],
             "C03" => vec![Overwrite, Overwrite, GcOrders, Readd, Queries],
             "C04" => vec![Readd, Readd, Readd, Readd, GcOrders],
-            "C05" => vec![Alloc, Alloc, Alloc, Forest],
+            "C05" => vec![Alloc, Alloc, Dense, Dense, Forest],
             _ => vec![GcOrders],
         };
         Self { prop, profiles, max_len: 80 }
